@@ -1,11 +1,16 @@
 import PlzVerif.Base.Proto
 import PlzVerif.Model.BuildE2E
+import PlzVerif.Model.BuildCache
+import PlzVerif.Model.Collapse
+import PlzVerif.Generated.C02
 open PlzVerif PlzVerif.Proto PlzVerif.Build PlzVerif.BuildE2E
 
 structure St where
   files : List (String × String) := []
   defs  : List Attrs := []
   out   : List (String × (Tree × Stamp')) := []
+  cacheOn : Bool := false
+  cache : List ((String × Stamp') × Tree) := []
 
 def pkgOf (label : String) : String :=
   match (label.drop 2).toString.splitOn ":" with
@@ -75,6 +80,14 @@ def step (st : St) (line : String) : St × String :=
   | ["deltarget", label] => ({ st with defs := st.defs.filter (·.label ≠ label) }, "ok")
   | ["rmout", label] => ({ st with out := st.out.filter (·.1 ≠ label) }, "ok")
   | ["wipe"] => ({ st with out := [] }, "ok")
+  | ["cacheon"] => ({ st with cacheOn := true }, "ok")
+  | ["collapse", h] =>
+    match bytesOfHex h with
+    | some bs =>
+      let key := bs.map (·.toNat)
+      if key.length != 80 then (st, "bad-op") else
+      (st, hexOfBytes ((Collapse.collapseList Generated.C02.collapseEqualBranch Generated.C02.collapseElseBranch key).map UInt8.ofNat))
+    | none => (st, "bad-op")
   | ["build", ls] =>
     let req := splitList ls
     match closure st req with
@@ -82,8 +95,17 @@ def step (st : St) (line : String) : St × String :=
     | some order =>
       let r := mkRepo st order
       let sel := fun k => order.contains k
-      let (out', ran) := buildE2E r sel (fun k => st.out.lookup k)
       let keys := (st.out.map (·.1) ++ order).eraseDups
+      if st.cacheOn then
+        let (out', cache', ran) := buildC generatedFacts exec ruleSer pathSer r sel (fun k => st.out.lookup k) (fun q => st.cache.lookup q)
+        let outL := keys.filterMap fun k => (out' k).map fun v => (k, v)
+        -- cache keys that can have been added: (k, stamp now in plz-out) for k in order
+        let newKeys := order.filterMap fun k => (out' k).map fun v => (k, v.2)
+        let cacheL := (st.cache.map (·.1) ++ newKeys).eraseDups.filterMap fun q => (cache' q).map fun v => (q, v)
+        let shown := (sortStrs order).map fun k => k ++ "=" ++ (match out' k with | some v => showTree v.1 | none => "missing")
+        ({ st with out := outL, cache := cacheL }, "ran=" ++ ",".intercalate (sortStrs ran) ++ "|" ++ ";".intercalate shown)
+      else
+      let (out', ran) := buildE2E r sel (fun k => st.out.lookup k)
       let outL := keys.filterMap fun k => (out' k).map fun v => (k, v)
       let shown := (sortStrs order).map fun k => k ++ "=" ++ (match out' k with | some v => showTree v.1 | none => "missing")
       ({ st with out := outL }, "ran=" ++ ",".intercalate (sortStrs ran) ++ "|" ++ ";".intercalate shown)
